@@ -371,7 +371,7 @@ class TLCase(object):
     """One typelib experiment: slot 0 = namespace Test with key set `mask`; optionally slot 1 = namespace
     Other with the complementary key set."""
 
-    LOADS = ('eager', 'lazy', 'lazy-then-eager')
+    LOADS = ('eager', 'lazy', 'lazy-then-eager', 'mixed')
 
     def __init__(self, mask, pair):
         self.mask, self.pair = mask, pair
@@ -383,7 +383,9 @@ class TLCase(object):
         if pair and comp:
             self.docs.append(make_doc(comp, 'Other', c_prefix='T'))
         self.ns = [b'Test', b'Other']
-        self.load = self.LOADS[(mask // 3) % 3]
+        self.load = self.LOADS[(mask // 3) % 4]
+        if self.load == 'mixed' and len(self.docs) < 2:
+            self.load = 'eager'
         self.data = []
         self.dirs = []
 
@@ -438,7 +440,10 @@ def build_commands(cases, paths, nprobes, gprobes, eprobes):
     Load sequences (case.load):
       eager            probe keys (nothing loaded) . load . full probe menu
       lazy             probe keys . load with G_IREPOSITORY_LOAD_FLAG_LAZY . full probe menu
-      lazy-then-eager  probe keys . lazy load . probe every member key . load again without the flag . full menu"""
+      lazy-then-eager  probe keys . lazy load . probe every member key . load again without the flag . full menu
+      mixed            probe keys . one namespace loaded eagerly, the other only lazily . full menu (every key's first
+                       repository-level lookup after the load happens with both tables populated; the eager one is
+                       Test unless Test depends on Other through cross references)"""
     cmds, plan = [], []
 
     def add(c, what):
@@ -468,14 +473,19 @@ def build_commands(cases, paths, nprobes, gprobes, eprobes):
         # cache this fills must not survive the load, lazy or not)
         member_probes('before', False)
         final = 'after'
-        if case.load != 'eager':
+        if case.load == 'mixed':
+            lazy_slot = 0 if case.xrefs else 1
+            add('L %d 1' % lazy_slot, ('L', ci, lazy_slot))
+            add('L %d' % (1 - lazy_slot), ('L', ci, 1 - lazy_slot))
+            final = 'lazy'
+        elif case.load != 'eager':
             for s in reversed(range(nslots)):
                 add('L %d 1' % s, ('L', ci, s))
             final = 'lazy'
         if case.load == 'lazy-then-eager':
             member_probes('lazy', True)
             final = 'after'
-        if case.load != 'lazy':
+        if case.load not in ('lazy', 'mixed'):
             for s in reversed(range(nslots)):     # Other first: Test may depend on it
                 add('L %d' % s, ('L', ci, s))
         for s in range(nslots):
@@ -923,7 +933,7 @@ def run(ctx):
                  'substitutions, empty) through _gi_typelib_hash_search + final strcmp; (T) %d subsets compiled to real '
                  'typelibs (12 entry kinds rotating over the names: every registered-type kind - record, union, enum, flags, object, interface - with a GType name, record/union/enum/flags also without, constant, 4 c:identifier-prefixes), each also next to a second '
                  'namespace holding the complementary key set (2 of 3 with cross-namespace references to alphabet names absent '
-                 'locally; load sequences eager / lazy / lazy-then-eager): %d name / %d GType-name / %d error-domain probes through '
+                 'locally; load sequences eager / lazy / lazy-then-eager / mixed (one namespace eager, the other lazy)): %d name / %d GType-name / %d error-domain probes through '
                  'index, patched-away index (linear fallback), find_by_name / find_by_gtype (real GTypes) / '
                  'find_by_error_domain on two repositories, and repository probes before the load; (L) size ladder %r '
                  'in-process and through g-ir-compiler + prober (all members + 10 generated probes per member). '
